@@ -361,6 +361,8 @@ def _c07(ad, cls, kw, cfg, reads, res, aw, rw):
               adapter_wildcards=cfg["adapter_wildcards"], read_wildcards=cfg["read_wildcards"], name="x", **kw)
     ad2.kmer_finder = MockKmerFinder()
     m1, m2 = ad.match_to, ad2.match_to
+    # with wildcards in play, also the adapter as a worker process gets it (pickle round trip), prefilter included
+    m3 = pickle.loads(pickle.dumps(ad)).match_to if (cfg["read_wildcards"] or ad.adapter_wildcards or len(cfg["adapter"]) > 8) else None
     kp = ad.kmer_finder.kmers_present
     rightmost = cfg["type"].startswith("rightmost")
     m = len(cfg["adapter"])
@@ -375,6 +377,12 @@ def _c07(ad, cls, kw, cfg, reads, res, aw, rw):
             res["matches"] += 1
         t1 = None if a1 is None else (a1.astart, a1.astop, a1.rstart, a1.rstop, a1.score, a1.errors)
         t2 = None if a2 is None else (a2.astart, a2.astop, a2.rstart, a2.rstop, a2.score, a2.errors)
+        if m3 is not None and t1 == t2:
+            a3 = m3(r)
+            t3 = None if a3 is None else (a3.astart, a3.astop, a3.rstart, a3.rstop, a3.score, a3.errors)
+            if t3 != t2:
+                V.append((f"{cfg['type']}:pickled", "after a pickle round trip of the adapter the result with the k-mer prefilter differs "
+                          "from the result of the full alignment", dict(cfg, read=r, pickled_with_prefilter=t3, alignment_only=t2)))
         if t1 != t2:
             cls_ = "short-read" if len(r) < m else "window"
             V.append((f"{cfg['type']}:{'indels' if cfg['indels'] else 'noindels'}:{cls_}",
